@@ -87,7 +87,8 @@ pub fn run_history(acc: &mut Acc, r: &mut Rng, steps: u64) {
                 let script = bind(&wd, v, amount, &sym, r.range128(1, 1_000_000));
                 let label = format!("direct {}", sym.label());
                 let out = monitored_loan(acc, &mut wd, user, v, amount, How::Direct(script), &label);
-                if sym.only_exact() && amount <= obs.bal && !out.ok {
+                // (a borrower that cannot afford the fees out of its own pocket fails in the bank module: not a verdict of the vault)
+                if sym.only_exact() && amount <= obs.bal && !out.ok && !out.err.contains("Cannot Sub") {
                     acc.violation("C06", "L8/exact-repayment-rejected", vdetail(&wd, v, json!({"err": out.err, "amount": amount.to_string()})));
                 }
                 class.push(3 + sym.depth() as u64);
@@ -149,6 +150,31 @@ pub fn run_history(acc: &mut Acc, r: &mut Rng, steps: u64) {
             let have = bal_cw20(&wd.app, &wd.vaults[v].lp, &wd.users[user]);
             if have > 0 {
                 monitored_withdraw(acc, &mut wd, user, v, have);
+            }
+        }
+    }
+    // after the drain (the borrower gives up its shares too) only the locked minimum is left: a new depositor
+    // must be priced against what still backs those shares (fees, dust), not as a first depositor
+    for v in 0..2 {
+        let (lp, b, va) = (wd.vaults[v].lp.clone(), wd.borrower.clone(), wd.vaults[v].addr.clone());
+        let have = bal_cw20(&wd.app, &lp, &b);
+        if have > 0 {
+            let script = vec![crate::adversary::Step { act: crate::adversary::Act::Withdraw { vault: va.to_string(), lp_token: lp.to_string(), lp: cosmwasm_std::Uint128::new(have) }, swallow: false }];
+            let u0 = wd.users[0].clone();
+            wd.log(format!("borrower withdraws all its {have} LP of vault{v}"));
+            let _ = exec(&mut wd.app, &u0, &b, &crate::adversary::BorrowerExec::Run { script }, &[]);
+        }
+        if let Ok(o) = wd.observe(v) {
+            if o.s == 1000 {
+                acc.count("drain.share-supply==locked-minimum");
+            }
+        }
+        let amt = r.range128(1001, 1_000_000_000_000);
+        if monitored_deposit(acc, &mut wd, 1, v, amt) {
+            acc.count("deposit.after-full-drain");
+            let have = bal_cw20(&wd.app, &wd.vaults[v].lp, &wd.users[1]);
+            if have > 0 {
+                monitored_withdraw(acc, &mut wd, 1, v, have);
             }
         }
     }
